@@ -892,6 +892,8 @@ class Evaluator:
         return unparse(e.func, 60)
 
     def construct(self, t: TypeV, args: List[Any], kwargs: Dict[str, Any], e: ast.Call) -> Any:
+        if t.py is type and len(args) == 1:
+            return self.builtin("type", args, kwargs, e)
         if t.py is not None:
             if t.py in (str, int, float, bool, list, tuple, dict, set, frozenset, bytes) and all(isinstance(a, Const) for a in args) and not kwargs:
                 try:
